@@ -42,6 +42,8 @@ func (q *TellHub[A]) Receive(ctx context.Context, fn func(p2p.Message[A])) error
 	default:
 		// blocking case
 		select {
+		case <-q.closed:
+			return q.err
 		case <-ctx.Done():
 			return ctx.Err()
 		case req, ok := <-q.delivers:
